@@ -191,11 +191,14 @@ CHECKS["C01"] = dict(
          "event handlers, publishes a stream that takes a mirror in sync with the device before to a mirror in sync with the device after "
          "(every_operation_keeps_the_mirror_in_sync), hence every history does (every_history_keeps_the_mirror_in_sync); in sync = per property "
          "name, the entry is what a definition of the property as it now is creates (name, kind, group, label, state, enabled elements with "
-         "labels and wire values), absent when not exposed, and no other entries (what_in_sync_means). PARTIAL in one respect: that a connected "
-         "client receives exactly the published stream through router, serializer, fragmented byte stream and framing is composed in the system "
-         "model (System/Model.v) and VALIDATED by running the real stack (every device state and every client view after every operation, "
-         "generated definitions incl. inheritance) plus a model-free oracle, not proved as one theorem. REFUTED for BLOB payloads (known finding K2).",
-    note=NOTE_BASE + "Partial: the delivery of the published stream to the client is validated by correspondence, not proved as one theorem. Known findings K2 (BLOB payload after a definition) and K1-C01 (messages above the 2048-character threshold).",
+         "labels and wire values), absent when not exposed, and no other entries (what_in_sync_means). In the composed system model "
+         "(System/Deliver.v, Client/Norm.v): what a driver publishes in one operation reaches the connected network client exactly "
+         "(what_a_driver_publishes_is_delivered), processing commutes with the wire's normalisation, and through every operation that publishes "
+         "no BLOB update the client's mirror stays the normalisation of a mirror in sync with the device (the_connected_client_stays_in_sync). "
+         "PARTIAL: operations publishing BLOB updates (two connections, order not determined) and the network client's handshake are composed "
+         "in the system model and VALIDATED by running the real stack (every device state and every client view after every operation, "
+         "generated definitions incl. inheritance) plus a model-free oracle, not proved. REFUTED for BLOB payloads (known finding K2).",
+    note=NOTE_BASE + "Partial: operations that publish BLOB updates and the network client's handshake are validated by correspondence, not proved end to end. Known findings K2 (BLOB payload after a definition) and K1-C01 (messages above the 2048-character threshold).",
     technique="Coq proof (handshake, every operation and every history keep the mirror in sync, for every handler-free device definition) + system-level correspondence of the composed model with the real driver/router/transport/client stack",
     design="4/C01")
 CHECKS["C08"] = dict(
